@@ -615,11 +615,12 @@ func c04AllIds(o *oReq) string {
 	return "[" + strings.Join(ids, ";") + "]"
 }
 
-func c04EndToEnd(out *vOut, g *c04Gen, traces bool) {
+func c04EndToEnd(out *vOut, g *c04Gen, mode int) { // 0 logs, 1 traces, 2 metrics
+	traces := mode == 1
 	if c04E2EStuck {
 		return
 	}
-	g.m4, g.prof = false, false
+	g.m4, g.prof = mode == 2, false
 	szt := g.r.Pick(1, 2)
 	n := 2 + g.r.Intn(4)
 	trees := make([][]gRes, n)
@@ -629,6 +630,9 @@ func c04EndToEnd(out *vOut, g *c04Gen, traces bool) {
 	sg := sigs[0]
 	if traces {
 		sg = sigs[1]
+	}
+	if mode == 2 {
+		sg = sigs[2]
 	}
 	for i := range trees {
 		if i == 0 {
@@ -665,7 +669,26 @@ func c04EndToEnd(out *vOut, g *c04Gen, traces bool) {
 	set := exportertest.NewNopSettings(exportertest.NopType)
 	detail := fmt.Sprintf("signal=%s sizer=%d min=%d max=%d requests=%v", sg.name, szt, min, max, sizes)
 	nb := 0
-	if traces {
+	if mode == 2 {
+		// metrics: the identity of a cut metric is lost (F4), so the oracle compares (point, resource, scope, type)
+		sink := &consumertest.MetricsSink{}
+		exp, err := NewMetrics(ctx, set, &struct{}{}, sink.ConsumeMetrics, WithQueue(qCfg))
+		if err != nil || exp.Start(ctx, componenttest.NewNopHost()) != nil {
+			out.Oracle("e2e-setup", c04NoCase, detail)
+			return
+		}
+		for _, t := range trees {
+			want = append(want, sg.obs(sg.build(t), szt).flat(false)...)
+			if err := exp.ConsumeMetrics(ctx, c04BuildMetrics(t)); err != nil {
+				out.Oracle("e2e-send", c04NoCase, detail+" err="+err.Error())
+			}
+		}
+		c04ShutdownGuarded(out, detail, exp.Shutdown)
+		for _, md := range sink.AllMetrics() {
+			got = append(got, c04ObsMetrics(newMetricsRequest(md), szt).flat(false)...)
+			nb++
+		}
+	} else if traces {
 		sink := &consumertest.TracesSink{}
 		exp, err := NewTraces(ctx, set, &struct{}{}, sink.ConsumeTraces, WithQueue(qCfg))
 		if err != nil || exp.Start(ctx, componenttest.NewNopHost()) != nil {
@@ -717,13 +740,14 @@ func c04EndToEnd(out *vOut, g *c04Gen, traces bool) {
 	if !c04SameMultiset(want, got) {
 		out.Oracle("e2e-conservation", c04NoCase, fmt.Sprintf("%s sent=%d exported=%d batches=%d", detail, len(want), len(got), nb))
 	}
-	if qCfg.NumConsumers == 1 && !c04E2EStuck {
+	if qCfg.NumConsumers == 1 && !c04E2EStuck && mode != 2 {
 		// one consumer: the batcher sees the requests in the order they were sent; the composed model (merge_split
 		// inside Consume, sizer = true size) must export the same set of payloads
 		out.Case(nb > 1, fmt.Sprintf("(CE2E %d %d %d %d [%s] [%s])%%Z", sg.code, szt, min, max, strings.Join(reqTerms, ";"), strings.Join(batchTerms, ";")))
 		out.Stat("e2e.model_cases", 1)
 	}
 	out.Stat("e2e.histories", 1)
+	out.Stat(fmt.Sprintf("e2e.signal_%d", mode), 1)
 	out.Stat("e2e.batches", nb)
 	if max-min <= 2 {
 		out.Stat("e2e.min_at_or_next_to_max", 1)
@@ -753,14 +777,14 @@ func TestVerifC04(t *testing.T) {
 		c04One(out, sigs[i%3], g, 1, 2)
 	}
 	for i := 0; i < vBudget(160, 8); i++ {
-		c04EndToEnd(out, g, i%2 == 1)
+		c04EndToEnd(out, g, i%3)
 	}
 	// DeltaSize / sov: exhaustive against an independent closed form on 0..2^21+2^10 (direct oracle), and the
 	// varint boundaries + random 62-bit values + negative ints as correspondence cases for the Coq definition
 	bs := &sizer.LogsBytesSizer{}
 	for x := 0; x <= (1<<21)+(1<<10); x++ {
 		if bs.DeltaSize(x) != 1+x+c04SovRef(uint64(x)) {
-			out.Oracle("deltasize", c04NoCase, fmt.Sprintf("DeltaSize(%d)=%d", x, bs.DeltaSize(x)))
+			out.Oracle("deltasize", fmt.Sprintf("(CSov [(%d,%d)])%%Z", x, bs.DeltaSize(x)), fmt.Sprintf("DeltaSize(%d)=%d, expected %d", x, bs.DeltaSize(x), 1+x+c04SovRef(uint64(x))))
 			break
 		}
 	}
